@@ -16,16 +16,16 @@ var infixLevel = map[string]int{
 	"+": 8, "-": 8,
 	"*": 9, "/": 9,
 	"**": 10,
-	"%": 11,
+	"%":  11,
 }
 
 const prefixLevel = 12
 
 type ET struct {
-	Kind string // atom, infix, prefix, index, call, ternary
-	Op   string
+	Kind    string // atom, infix, prefix, index, call, ternary
+	Op      string
 	A, B, C *ET
-	Atom string
+	Atom    string
 }
 
 func (e *ET) level() int {
@@ -396,7 +396,7 @@ func genInvalid(stream string, seed uint64, nTrunc int, depthMax int) []GenCase 
 	}
 	// an illegal character is illegal wherever it stands: as the very last rune, the very first, right after a
 	// string, a number, a comment's newline
-	for _, ch := range []string{"\x00", "#", "@", "&", "|", "~", "`"} {
+	for _, ch := range []string{"\x00", "#", "@", "&", "|", "~", "`", "\v", "\f", "\u00a0", "\u0085", "\u2003", "\u2028", "\u3000", "\ufeff", "\u200b"} {
 		for _, sc := range []string{"return 1;" + ch, ch + "return 1;", "return \"s\"" + ch + ";", "return 1" + ch + ";", "return 1; // c\n" + ch, "return 1;\n" + ch + "\n", "x = 1;" + ch + " return x;",
 			"if (true) { return 1; }" + ch, "function f() { return 1; }" + ch, "return 1; " + ch + " "} {
 			add(sc, true, "illegal-character-position")
@@ -704,6 +704,17 @@ func genLex(stream string, seed uint64, n int) []GenCase {
 		add(a.String(), key, "plain", []string{"tokens"}, "layout")
 		add(b.String()+" // trailing comment", key, "relaid", []string{"tokens"}, "layout")
 	}
+	// the end of the input is a separator like any other: a script means the same with and without a final newline,
+	// whatever token it ends in (two-character operators, decimals, postfix operators, comments without a newline)
+	for k, x := range []string{"a = 1; a++", "a = 1; a--", "x = 1.5", "x = 10", "x = 1 <= 2", "x = a == b", "x = 2 ** 2", "x = a && b", "x = a || b", "x = a != b", "x = 1; x += 1", "x = 1..3",
+		"x = \"s\"", "x = 's'", "x = /re/", "x = /re/i", "x = 1 // c", "x = 1 //", "if (a) { x = 1 }", "function f() { return 1 } x = f()", "x = [1, 2]", "x = {\"k\": 1}", "x = a ? 1 : 2",
+		"x = a >= 1", "x = !a", "x = -1", "x = a.b", "x = a !~ /b/", "x = a ~= /b/", "return 7", "x = 70000", "x = a[0]"} {
+		key := fmt.Sprintf("eof-%d", k)
+		add(x, key, "plain", []string{"tokens"}, "end-of-input")
+		add(x+"\n", key, "relaid", []string{"tokens"}, "end-of-input")
+		add(x+" ", key, "relaid", []string{"tokens"}, "end-of-input")
+		add(x+";\n", "", "", []string{"tokens"}, "end-of-input")
+	}
 	// termination / arbitrary input
 	for i := 0; i < n; i++ {
 		add(randText(r, r.Intn(40)), "", "", []string{"tokens"}, "token-soup")
@@ -719,7 +730,7 @@ func genFuzz(stream string, seed uint64, n int) []GenCase {
 	id := 0
 	addOpt := func(script string, obj HV, opt bool, tags ...string) {
 		c := Case{ID: fmt.Sprintf("%s-%d", stream, id), Script: script, Opt: opt, Tags: tags, Show: []string{"tokens", "code"},
-			Fns: []HostFn{recFn(), {Name: "hnil", Kind: "nil"}, {Name: "hpanic", Kind: "panic"}},
+			Fns:  []HostFn{recFn(), {Name: "hnil", Kind: "nil"}, {Name: "hpanic", Kind: "panic"}},
 			Runs: []Run{{Obj: obj, Polls: 5000}, {Obj: stdObject(r), Polls: 5000}}}
 		id++
 		out = append(out, GenCase{Case: c, Stream: stream, NonTrivial: true})
@@ -770,7 +781,7 @@ func genFuzz(stream string, seed uint64, n int) []GenCase {
 	for kind := 0; kind <= 5; kind++ {
 		for _, sc := range []string{"return hp();", "x = hp(); return 1;", "function f() { return hp(); } return f();", "if (Flag) { return hp(); } return 2;", "foreach v in [1, 2] { hp(); } return 3;"} {
 			c := Case{ID: fmt.Sprintf("%s-%d", stream, id), Script: sc, Opt: id%2 == 0, Tags: []string{"host-panic-value"}, Show: []string{"runbool", "spec"},
-				Fns: []HostFn{recFn(), {Name: "hp", Kind: "panic", I: kind}},
+				Fns:  []HostFn{recFn(), {Name: "hp", Kind: "panic", I: kind}},
 				Runs: []Run{{Obj: stdObject(r), Polls: 5000}, {Obj: stdObject(r), Polls: 5000}}}
 			id++
 			out = append(out, GenCase{Case: c, Stream: stream, NonTrivial: true, Role: "api"})
@@ -782,7 +793,7 @@ func genFuzz(stream string, seed uint64, n int) []GenCase {
 			"return [Count, Name, Tags, Nums, Flag, Score, Big];", "if (Nums) { return 1; } return 2;", "x = Nums; y = Flag; return [x, y, len(Tags), type(Nums), string(Flag)];",
 			"foreach v in Nums { rec(v); } return 1;", "foreach v in Tags { rec(v); } return len(Big);"} {
 			c := Case{ID: fmt.Sprintf("%s-%d", stream, id), Script: sc, Opt: id%2 == 0, Tags: []string{"odd-object-sweep"}, Show: []string{"runbool", "spec"},
-				Fns: []HostFn{recFn(), {Name: "hnil", Kind: "nil"}, {Name: "hpanic", Kind: "panic"}},
+				Fns:  []HostFn{recFn(), {Name: "hnil", Kind: "nil"}, {Name: "hpanic", Kind: "panic"}},
 				Runs: []Run{{Obj: oddObjectN(k), Polls: 5000}, {Obj: stdObject(r), Polls: 5000}}}
 			id++
 			out = append(out, GenCase{Case: c, Stream: stream, NonTrivial: true, Role: "api"})
@@ -809,7 +820,7 @@ func genFuzz(stream string, seed uint64, n int) []GenCase {
 		on := HV{Kind: "struct", Fields: []HField{{"Flag", true, HV{Kind: "bool", B: true}}}}
 		off := HV{Kind: "struct", Fields: []HField{{"Flag", true, HV{Kind: "bool", B: false}}}}
 		c := Case{ID: fmt.Sprintf("%s-%d", stream, id), Script: script, Opt: id%2 == 0, Tags: []string{"failure-at-depth-then-reuse"},
-			Fns: []HostFn{recFn(), {Name: "hnil", Kind: "nil"}, {Name: "hpanic", Kind: "panic"}},
+			Fns:  []HostFn{recFn(), {Name: "hnil", Kind: "nil"}, {Name: "hpanic", Kind: "panic"}},
 			Runs: []Run{{Obj: on, Polls: 190000}, {Obj: off, Polls: 5000}, {Obj: on, Polls: 190000}, {Obj: on, Polls: 190000}, {Obj: off, Polls: 5000}}}
 		id++
 		out = append(out, GenCase{Case: c, Stream: stream, NonTrivial: true})
